@@ -36,7 +36,7 @@ from simkit.world import digest
 ID = "C43"
 LEVEL = "exploration"
 ENGINE = "simkit/model-world"
-QUICK_RUNS = 100000
+QUICK_RUNS = 80000     # ~150 full-length runs/s/core (about 35 s on 16 cores)
 QUICK_BUDGET_S = 120
 THOROUGH_BUDGET_S = 900
 CHUNK = 500
